@@ -205,7 +205,7 @@ def explore(harness, root_prefix=(), max_paths=200000, seed_only=None, deadline=
     work = [list(root_prefix)]
     st = dict(paths=0, decisions=0, queries=0, solver_time=0.0, obligations=0, discharged=0, failed=[], unknown=0,
               classes={}, cuts={}, engine_errors=[], validate=[], samples=[], leftover=[], guards=0, lazy_axioms=0,
-              infeasible=0)
+              infeasible=0, second={"checked": 0})
     stride = max(1, getattr(harness, "validate_stride", 1))
     while work:
         if seed_only is not None and st["paths"] >= seed_only:
@@ -257,6 +257,14 @@ def explore(harness, root_prefix=(), max_paths=200000, seed_only=None, deadline=
                 r = ctx.check(z3.Not(goal)) if not isinstance(goal, bool) else (z3.unsat if goal else z3.sat)
                 if r == z3.unsat:
                     st["discharged"] += 1
+                    sstride = getattr(harness, "second_stride", 0)
+                    if sstride and not isinstance(goal, bool) and st["discharged"] % sstride == 1 and st["second"]["checked"] < getattr(harness, "second_cap", 40):
+                        st["second"]["checked"] += 1
+                        for name, v in second_opinion(ctx, goal).items():
+                            key = name + ":" + ("agree" if v == "unsat" else "DISAGREE" if v == "sat" else v)
+                            st["second"][key] = st["second"].get(key, 0) + 1
+                            if v == "sat":
+                                st["engine_errors"].append(f"second solver {name} says sat where z3 5.1 says unsat for obligation {label!r}")
                 elif r == z3.sat:
                     # prefer a counterexample that also satisfies the witness-diversifying soft constraints
                     softs = harness.soft(res) if hasattr(harness, "soft") else []
@@ -294,6 +302,37 @@ def explore(harness, root_prefix=(), max_paths=200000, seed_only=None, deadline=
     return st
 
 
+def second_opinion(ctx, goal, timeout_s=20):
+    """Re-decide one discharged obligation (path condition AND NOT goal, expected unsat) with two other solvers:
+    the cvc5 1.0 binary and /usr/bin/z3 4.8.12.  -> {'cvc5': verdict, 'z3-4.8.12': verdict}; any '(error' line is 'error'."""
+    import os
+    import subprocess
+    import tempfile
+    t = z3.Solver()
+    t.add(ctx.s.assertions())
+    t.add(z3.Not(goal))
+    txt = "(set-logic ALL)\n" + t.to_smt2().replace("ubv_to_int", "bv2nat")
+    fd, path = tempfile.mkstemp(prefix="spv_q_", suffix=".smt2")
+    out = {}
+    try:
+        with os.fdopen(fd, "w") as f:
+            f.write(txt)
+        for name, cmd in (("cvc5", ["cvc5", f"--tlimit={timeout_s * 1000}", path]), ("z3-4.8.12", ["/usr/bin/z3", f"-T:{timeout_s}", path])):
+            try:
+                r = subprocess.run(cmd, capture_output=True, text=True, timeout=timeout_s + 10)
+                o = (r.stdout + r.stderr).strip()
+                if "(error" in o or "Parse Error" in o:
+                    out[name] = "error"
+                else:
+                    first = o.splitlines()[0].strip() if o else "unknown"
+                    out[name] = first if first in ("sat", "unsat") else "unknown"
+            except (subprocess.TimeoutExpired, FileNotFoundError):
+                out[name] = "unknown"
+    finally:
+        os.unlink(path)
+    return out
+
+
 def model_with_soft(ctx, softs):
     """A model of the path condition that also satisfies as many witness-diversifying soft constraints as possible
     (so that cross-validation does not only ever see all-zero inputs).  Does not change the path condition."""
@@ -320,6 +359,9 @@ def merge_stats(a, b):
         d = a.setdefault(k, {})
         for kk, v in b.get(k, {}).items():
             d[kk] = d.get(kk, 0) + v
+    sa, sb = a.setdefault("second", {}), b.get("second", {})
+    for kk, v in sb.items():
+        sa[kk] = sa.get(kk, 0) + v
     s = a.setdefault("samples", [])
     for x in b.get("samples", []):
         if len(s) < 4:
